@@ -94,7 +94,8 @@ func vhNewWrapper(dsse bool, payload any) Metadata {
 		}
 		return e
 	}
-	return &Metablock{Signed: payload}
+	// as the library's own constructors (InTotoRun, InTotoRecordStart) do: an empty, non-nil signature list
+	return &Metablock{Signed: payload, Signatures: []Signature{}}
 }
 
 // vspecSigOver: the signature text (hex for the legacy wrapper, base64 for
@@ -150,7 +151,14 @@ func vhC04(a []int, twin bool) {
 		vReach("C04.end")
 		return
 	}
-	// the signatures present are standard ones over exactly the current content
+	// the signatures present are standard ones over exactly the current content:
+	// canonical JSON for the legacy wrapper, the DSSE PAE of the stored payload
+	// (canonical JSON with control characters escaped, see C11) for envelopes
+	if e, isEnv := md.(*Envelope); isEnv {
+		raw, derr := e.envelope.DecodeB64Payload()
+		vAssert("C04.envelope-payload-decodes", derr == nil)
+		origCanon = string(raw)
+	}
 	for _, sg := range md.Sigs() {
 		idx := -1
 		for i, id := range vhEdIDs {
